@@ -22,7 +22,7 @@ NOTE_E1 = ("Exhaustive within the stated deviation bounds of the listed scenario
 CHECKS = {
     "C01": dict(built=True, engine=E1, level=MC, design="4/C01",
         technique="stateless model checking: deviation-bounded DFS over schedules and transport faults of the real goroutine code under a controlled scheduler (synctest bubble); plus exhaustive window arithmetic for every sequence-space size",
-        text="Every execution of the uni/bidi/burst/chunked scenarios, of a late sender after handshake faults and of a late receiver, with at most the listed numbers of scheduling deviations and transport faults (drop, in-order dup, delay), is run on the real code and the prefix oracle (Recv results are a prefix of Send-accepted payloads, byte-equal, both directions) is evaluated at every quiescent state. The window arithmetic that depends on N is enumerated for every sequence space s=2..255.",
+        text="Every execution of the uni/bidi/burst/chunked scenarios, of a late sender after handshake faults and of a late receiver, with at most the listed numbers of scheduling deviations and transport faults (drop, in-order dup, delay, a transient write error of the transport), is run on the real code and the prefix oracle (Recv results are a prefix of Send-accepted payloads, byte-equal, both directions) is evaluated at every quiescent state. The window arithmetic that depends on N is enumerated for every sequence space s=2..255; the thorough tier runs windows above 128 on the live connection with one fault at every point.",
         note=NOTE_E1),
     "C05": dict(built=True, engine=E3, level=MC, design="4/C05",
         technique="stateless model checking of the composed stack (mailbox Server/Client, ServerConn/ClientConn, GBN, Noise) over an in-memory hashmail relay: deviation-bounded DFS over schedules and relay faults (message drop, delay, stream kill)",
@@ -30,7 +30,7 @@ CHECKS = {
         note=NOTE_E1 + " The relay model (one reader/writer per stream, FIFO, rejected first message lost, release when the holder's context is done) is taken from aperture v0.3.11; its rate limiter and pipe back-pressure are represented by the delay fault only. The websocket transport is not driven."),
     "C11": dict(built=True, engine=E3, level=MC, design="4/C11",
         technique="stateless model checking of consecutive sessions through Server.Accept / Client.Dial over the fake relay, with the close-by-client / close-by-server / relay-failure events placed by the scheduler and an unpaired intruder client",
-        text="Two or three consecutive sessions with re-entering accept and dial loops over one NoiseGrpcConn per side: a connection is never handed out while the previous one of that side is open, nor (without relay faults) while neither application has begun to close it or while the application's Close is still running, and no call fails on a connection nobody has begun to close; after a close or a relay fault (kill, restart, downtime) that interrupted an owed session both sides get a working connection again; a side stores the peer's key only in a handshake it completes; after a version-2 pairing every later handshake really runs KK on the new key-derived stream ids, the same on both sides; a different client with only the original passphrase never completes a handshake and never receives the auth payload.",
+        text="Two or three consecutive sessions with re-entering accept and dial loops over one NoiseGrpcConn per side: a connection is never handed out while the previous one of that side is open, nor (without relay faults) while neither application has begun to close it or while the application's Close is still running, and no call fails on a connection nobody has begun to close; after a close or a relay fault (kill, restart, downtime) that interrupted an owed session both sides get a working connection again; a side stores the peer's key only in a handshake it completes; after a version-2 pairing every later handshake really runs KK on the new key-derived stream ids, the same on both sides; a different client with only the original passphrase never completes a handshake and never receives the auth payload. A job in which one thread is kept off the processor for 2 s at any point (inside Close, Dial, Accept) is judged on the timing-independent oracles (stream prefix, previous connection's Done, intruder, ciphertext only).",
         note=NOTE_E1 + " The intruder is started after the first (pairing) session has ended."),
     "C06": dict(built=True, engine=E1, level=MC, design="4/C06",
         technique="stateless model checking of the real goroutine code: every execution with bounded fault prefixes (drop/dup/delay after a clean handshake) and scheduling deviations, virtual time to a 150 s horizon, progress/quiet oracles",
@@ -50,11 +50,11 @@ CHECKS = {
         note=NOTE_E1 + " A connection torn down visibly by a late duplicate SYN counts as 'fails visibly' (allowed by the statement)."),
     "C12": dict(built=True, engine=E1, level=MC, design="4/C12",
         technique="stateless model checking with closer threads / context cancellation injected at every scheduling point (also twice per side and on both sides), drain phase in virtual time, leak oracle over the scheduler's thread table",
-        text="Close (and a second Close, and later Send/Recv) is injected at every choice point of the traffic, stalled-link, blocked-transport and never-reading-application scenarios, also twice per side; oracles: every Close returns within 1.5 s virtual, when any Close call returns no call of the connection into its transport is in progress and none starts later, calls started after it fail, blocked calls return, the peer's calls fail when the transport works, and 30 s after both ends are closed no goroutine spawned by the connection is alive.",
+        text="Close (and a second Close, and later Send/Recv) is injected at every choice point of the traffic, stalled-link, blocked-transport and never-reading-application scenarios, also twice per side; oracles: every Close returns within 1.5 s virtual, when any Close call returns no call of the connection into its transport is in progress and none starts later, calls started after it fail, blocked calls return, the peer's calls fail when the transport works, and 30 s after both ends are closed no goroutine spawned by the connection is alive; an endpoint that closes itself by keepalive timeout while its sending direction works tells the peer (one-directional blackhole at every point).",
         note=NOTE_E1),
     "C13": dict(built=True, engine=E1, level=MC, design="4/C13",
         technique="stateless model checking with a blackhole fault placed at every scheduling point (idle, sending, full window) and fixed-latency healthy links; virtual time",
-        text="Dead peer: after the transport goes silent at any point (idle, sending, full window, ping below and above pong, a paced sender with a large window), every endpoint with keepalive must have closed by blackhole + ping + pong + 12 s and its calls must fail. Live peer: with one-way latency 0, pong/4 and just under pong/2 over 45 s idle, no endpoint may close, under every single scheduling deviation.",
+        text="Dead peer: after the transport goes silent at any point (idle, sending, full window, ping below and above pong, a paced sender with a large window), every endpoint with keepalive must have closed by blackhole + ping + pong + 12 s and its calls must fail. Live peer: with one-way latency 0, pong/4 and just under pong/2 over 45 s idle, no endpoint may close, under every single scheduling deviation; on a lossy link (up to two drops) an endpoint never closes by keepalive when a packet of the peer reached it inside the pong timeout that had to expire; with only one direction silent the side that hears nothing gives up and the other end closes too.",
         note=NOTE_E1),
     "C14": dict(built=True, engine=E1, level=MC, design="4/C14",
         technique="exhaustive product of chunk sizes x message-length sequences on the canonical schedule plus deviation-bounded model checking with faults and with receive/send deadlines expiring inside a message",
@@ -70,19 +70,19 @@ CHECKS = {
         note="Cryptographic strength of ChaCha20-Poly1305 is trusted. The reader model stops at the first read error; that later genuine records would still decrypt for a reader that ignores errors is reported as an informational count. Multi-edit scripts beyond ordered pairs are not enumerated."),
     "C03": dict(built=True, engine=E2, level=EX, design="4/C03",
         technique="bounded-exhaustive enumeration of secret / key mismatches (every single-bit difference of the 112-bit secret, all expected-key mismatches over 4 static keys) on the real handshake over an in-memory duplex that logs every byte the responder writes",
-        text="For every enumerated mismatch both DoHandshake calls must fail, the responder's write log must be empty at that moment (so the auth payload never left it), neither machine may hold traffic keys, ConnData and callbacks must be untouched; matching secrets/keys must complete (non-vacuity). 8 cases run at the real scrypt cost.",
+        text="For every enumerated mismatch both DoHandshake calls must fail, the responder's write log must be empty at that moment (so the auth payload never left it), neither machine may hold traffic keys, ConnData and callbacks must be untouched; matching secrets/keys must complete (non-vacuity). Histories in one process with a party's passphrase buffer rewritten in place between handshakes: the current phrase pairs, the previous one is rejected. 8 cases run at the real scrypt cost.",
         note="scrypt cost lowered to N=16 for bulk cases (package variable behind a verif-tag setter); static keys from a fixed list; secp256k1/scrypt strength trusted."),
     "C04": dict(built=True, engine=E2, level=FE, design="4/C04",
         technique="bounded-exhaustive enumeration of handshake configurations and man-in-the-middle rewrites (all 162 version-range x pattern configurations; every combination of version-byte substitutions; every single-bit flip of every act byte) on the real Machine",
-        text="Whenever both real DoHandshake calls complete, the views (version within both ranges, complementary keys, peer static keys, stored key, auth payload byte-for-byte) must agree; untampered compatible configurations must complete; a reconnect on the same ConnData with a changed auth payload leaves the initiator holding exactly the new one; a party whose handshake failed because the transport broke at one of its act writes holds no keys, no stored peer key, no auth payload.",
+        text="Whenever both real DoHandshake calls complete, the views (version within both ranges, complementary keys, peer static keys, stored key, auth payload byte-for-byte) must agree; untampered compatible configurations must complete; a reconnect on the same ConnData with a changed auth payload leaves the initiator holding exactly the new one; a party whose handshake failed because the transport broke at one of its act writes holds no keys, no stored peer key, no auth payload; in histories of two handshakes in one process (every ordered pair of payload sizes on both sides of 64 KiB) the later handshake does not change what the parties of the earlier one hold.",
         note="scrypt cost lowered; payload sizes {0,1,498,499,600,65535,65536,(2MiB)}; bit flips on representative configurations only."),
     "C08": dict(built=True, engine=E2, level=EX, design="4/C08",
         technique="bounded-exhaustive enumeration of record-stream histories across key rotations (every prefix length up to 8/24 rotations, sizes 0/1/65535 around every boundary, all 70 interleavings of 4+4 records at a boundary) with a (key, nonce) uniqueness oracle on the real cipher states",
-        text="After every record: reader output equals writer input, the (key, nonce) pair of both encryptions has never been used before, ciphertexts of equal plaintexts never repeat, the key changes exactly at the rotation interval, writer and reader cipher states are identical, a write refused while a record is pending leaves the cipher untouched, and no 8-byte window of plaintext or auth payload is on the wire.",
+        text="After every record: reader output equals writer input, the (key, nonce) pair of both encryptions has never been used before, ciphertexts of equal plaintexts never repeat, the key changes exactly at the rotation interval, writer and reader cipher states are identical, a write refused while a record is pending leaves the cipher untouched, records of the other direction read while a record is pending do not damage it, and no 8-byte window of plaintext or auth payload is on the wire.",
         note="State observed through verif-tag accessors before and after each record; AEAD strength trusted."),
     "C15": dict(built=True, engine=E2, level=EX, design="4/C15",
         technique="bounded-exhaustive enumeration of write-size sequences x read-buffer-size sequences against a byte-stream reference model, for NoiseGrpcConn, NoiseConn and connKit",
-        text="Every write sequence of length <= 3 over {0,1,2,3} x every cycled read-buffer sequence over {1,2,3,4}, plus boundary sizes around 32 KiB and 64 KiB with buffers from 1 byte to 70000, multi-record NoiseConn writes and NoiseGrpcConn writes over a transport that times out part of the way: 0<=n<=len(buf), nothing written beyond the buffer, bytes read == bytes written (no byte lost or delivered twice), oversize writes rejected or chunked, no EOF in the middle of an open stream.",
+        text="Every write sequence of length <= 3 over {0,1,2,3} x every cycled read-buffer sequence over {1,2,3,4}, plus boundary sizes around 32 KiB and 64 KiB with buffers from 1 byte to 70000, multi-record NoiseConn writes and NoiseGrpcConn writes over a transport that times out part of the way: 0<=n<=len(buf), nothing written beyond the buffer, bytes read == bytes written (no byte lost or delivered twice), oversize writes rejected or chunked, no EOF in the middle of an open stream; in histories of two connections on the same pair of NoiseGrpcConn objects (first connection closed, only its transport closed, or nothing closed) the second connection's stream is exactly what was written on it; write buffers are overwritten as soon as Write returns.",
         note="The reference model is the concatenation of accepted writes."),
     "C16": dict(built=True, engine=E2, level=FE, design="4/C16",
         technique="bounded-exhaustive enumeration of transport fragmentations (every uniform read size, every two-way and three-way cut of every handshake act and record) and of partial-write scripts (every two- and three-way partition of a record separated by timeouts) against the unfragmented run",
@@ -98,7 +98,7 @@ CHECKS = {
         note="Alphabet: sequence numbers 0,1; sleeps {150ms,400ms,1s,2.5s}. float32 boost arithmetic compared within 1 microsecond. The oracle keeps its own sample bookkeeping, independent of the implementation's."),
     "C19": dict(built=True, engine=E2, level=EX, design="4/C19",
         technique="bounded-exhaustive enumeration of codec inputs against a round-trip oracle (every value of every field; every byte string up to 3 bytes, 4 bytes by tier)",
-        text="Finite input spaces enumerated completely: all packet types x all 256 values of every one-byte field x both flags x boundary payload lengths; every byte string of length <= 3 and all 4-byte strings with a valid-or-adjacent type byte (all 2^32 in the thorough tier).",
+        text="Finite input spaces enumerated completely: all packet types x all 256 values of every one-byte field x both flags x boundary payload lengths; every byte string of length <= 3 and all 4-byte strings with a valid-or-adjacent type byte (all 2^32 in the thorough tier); histories of two serialisations (every ordered pair over 26 messages): the bytes of the first still deserialise to it after the second was serialised.",
         note="Payload contents beyond the listed lengths/fill pattern are not enumerated; nil and empty payload are identified."),
 }
 
